@@ -179,6 +179,7 @@ Definition input_wf (i : input) : bool :=
   match i with
   | IResolve _ _ ss => forallb valid_short ss
   | IArchive _ _ => false      (* the archive reader does panic on corrupt bytes: see no_panic_archive_refuted *)
+  | IStore op => negb (op =? 2)   (* no model behind store-level cases: the input only echoes how the open ended *)
   | _ => true
   end.
 
